@@ -483,6 +483,69 @@ def check_quantity_ctor(rep: Report, prog: Program, rid: str) -> None:
                       f"`{ast.unparse(st.stmt)}` does not store the magnitude argument unchanged", fi.where(st.stmt))
 
 
+def check_plain_ctor(rep: Report, prog: Program, rid: str, cls: str, fields: Dict[str, List[str]]) -> None:
+    """`cls.__init__` stores, for each field, one of the allowed source shapes built from its own parameters and
+    nothing else, on every path (reaching definitions).  fields: attribute -> allowed normalised sources, where
+    `$p` stands for the parameter of the same name, e.g. {"magnitude": ["$p"], "uncertainty": ["abs($p)", "abs(Quantity($p,measurand.unit))"]}."""
+    from .cfg import CFG
+    fi = prog.func(f"{cls}.__init__")
+    me = fi.params()[0]
+    cfg = CFG(fi.node)
+
+    def expand(e: ast.AST, at: Optional[int], depth: int = 0) -> List[str]:
+        """all normalised texts e may denote, locals replaced by their reaching definitions (parameters stay names)"""
+        if depth > 4:
+            return [ast.unparse(e).replace(" ", "")]
+        if isinstance(e, ast.Name):
+            outs: List[str] = []
+            defs = cfg.reaching_defs(at, e.id) if at is not None else [None]
+            for d in defs:
+                if d is None:
+                    outs.append(e.id)
+                elif isinstance(d, ast.Assign):
+                    val = d.value
+                    if isinstance(d.targets[0], (ast.Tuple, ast.List)) and isinstance(val, (ast.Tuple, ast.List)):
+                        for t_, v_ in zip(d.targets[0].elts, val.elts):
+                            if isinstance(t_, ast.Name) and t_.id == e.id:
+                                val = v_
+                    outs += expand(val, cfg.node_of(d), depth + 1)
+                else:
+                    outs.append("?" + ast.unparse(d)[:30])
+            return outs or [e.id]
+        if isinstance(e, ast.IfExp):
+            return expand(e.body, at, depth) + expand(e.orelse, at, depth)
+        if isinstance(e, ast.Call):
+            parts = [expand(a, at, depth + 1) for a in e.args]
+            outs = [ast.unparse(e.func).replace(" ", "") + "("]
+            for i, alts in enumerate(parts):
+                outs = [o + ("," if i else "") + a for o in outs for a in alts][:16]
+            return [o + ")" for o in outs]
+        return [ast.unparse(e).replace(" ", "")]
+    n = 0
+    for attr, allowed in fields.items():
+        want = {a.replace("$p", attr).replace(" ", "") for a in allowed}
+        for st in ast.walk(fi.node):
+            if not isinstance(st, ast.Assign):
+                continue
+            pairs = []
+            for t in st.targets:
+                if isinstance(t, ast.Attribute) and t.attr == attr and isinstance(t.value, ast.Name) and t.value.id == me:
+                    pairs.append(st.value)
+                elif isinstance(t, (ast.Tuple, ast.List)) and isinstance(st.value, (ast.Tuple, ast.List)) and len(t.elts) == len(st.value.elts):
+                    pairs += [v_ for a_, v_ in zip(t.elts, st.value.elts)
+                              if isinstance(a_, ast.Attribute) and a_.attr == attr and isinstance(a_.value, ast.Name) and a_.value.id == me]
+            for v in pairs:
+                n += 1
+                got = set(expand(v, cfg.node_of(st)))
+                bad = sorted(got - want)
+                rep.check(rid, f"{cls}.__init__:{attr}", not bad,
+                          f"{cls}.__init__ can store `{bad[0] if bad else ''}` as self.{attr}: the constructor must keep what it is given "
+                          f"({' or '.join(sorted(want))}) - every operator builds its result through it, so an adjustment here changes all of them",
+                          fi.where(st))
+    if n < len(fields):
+        raise AnalysisError(f"{cls}.__init__: stores of {sorted(fields)} not all found")
+
+
 def check_numeric_memo(rep: Report, prog: Program, resolver: Resolver, rid: str) -> None:
     """functools.lru_cache without typed=True conflates 4, 4.0 and Decimal('4'): a memoised
     function with a parameter that can carry two numeric types returns the first caller's
